@@ -3,7 +3,7 @@ import ast
 
 from ..model import AnalysisError, unparse, walk_local
 from ..paths import Evaluator, is_c, show, C, S, NONE, subterms
-from ..indexclass import ElemEval, Pos, classes, Undecided, spec_bin
+from ..indexclass import ElemEval, Pos, classes, Undecided, Fault, spec_bin
 from .common import mk_algebra, trace_tail
 from . import l1
 
@@ -108,6 +108,10 @@ def rule_classmap_2d(ctx, rid):
             if len(exits) != 1:
                 ctx.undecided(rid, fi, c, '%d return paths' % len(exits))
                 continue
+            flt = [t for t in subterms(exits[0].value) if t[0] == 'fault']
+            if flt:
+                ctx.violation(rid, fi, c, 'the result is computed through %s (%s for every input)' % (flt[0][2], flt[0][1]))
+                continue
             dec = _decode_coo(exits[0].value)
             if dec is None:
                 df = _dense_fill(exits[0].value, exits[0].state)
@@ -128,11 +132,142 @@ def rule_classmap_2d(ctx, rid):
             if dense == sparse:
                 ctx.violation('C10.R3', fi, 'return_sparse=%s returns the %s form' % (sparse, 'sparse' if sparse else 'dense'),
                               'return_sparse=%s yields %s' % (sparse, 'a dense array' if dense else 'a sparse matrix'))
+            def mask_parts(m):
+                if m[0] == 'call' and m[1] in ('numpy.all', 'numpy.logical_and') and m[2]:
+                    out_ = []
+                    for a_ in m[2]:
+                        out_ += mask_parts(a_)
+                    return out_
+                if m[0] == 'sub' and m[1] == ('ref', 'numpy.c_'):
+                    out_ = []
+                    for a_ in (m[2][1] if m[2][0] == 'tuple' else (m[2],)):
+                        out_ += mask_parts(a_)
+                    return out_
+                if m[0] == 'bin' and m[1] == '&':
+                    return mask_parts(m[2]) + mask_parts(m[3])
+                return [m]
             dg = _find_digitize(rows)
+            TIMEC0 = ('numpy.tile', 'numpy.arange', 'numpy.repeat', 'numpy.indices', 'numpy.meshgrid')
+
+            def dig_values(t):
+                if not isinstance(t, tuple) or not t:
+                    return False
+                if t[0] == 'attr' and t[2] in ('shape', 'size', 'ndim'):
+                    return False
+                if t[0] == 'call' and t[1] == 'builtins.len':
+                    return False
+                if t[0] == 'call' and t[1] == 'numpy.digitize':
+                    return True
+                for x in t[1:]:
+                    if isinstance(x, tuple):
+                        if x and isinstance(x[0], str):
+                            if dig_values(x):
+                                return True
+                        else:
+                            for y in x:
+                                if isinstance(y, tuple) and (dig_values(y) if (y and isinstance(y[0], str)) else
+                                                             any(dig_values(z) for z in y if isinstance(z, tuple))):
+                                    return True
+                return False
+            def param_values(t, names=('inam', 'infr')):
+                """does t depend on the values (not just the shape) of one of the input arrays?"""
+                if not isinstance(t, tuple) or not t:
+                    return False
+                if t[0] == 'attr' and t[2] in ('shape', 'size', 'ndim'):
+                    return False
+                if t[0] == 'call' and t[1] == 'builtins.len':
+                    return False
+                if t[0] == 's' and t[1] in names:
+                    return True
+                for x in t[1:]:
+                    if isinstance(x, tuple):
+                        if x and isinstance(x[0], str):
+                            if param_values(x, names):
+                                return True
+                        else:
+                            for y in x:
+                                if isinstance(y, tuple):
+                                    if y and isinstance(y[0], str):
+                                        if param_values(y, names):
+                                            return True
+                                    elif any(param_values(z, names) for z in y if isinstance(z, tuple)):
+                                        return True
+                return False
+            rbase = rows[1] if rows[0] == 'sub' else rows
+            cbase = cols[1] if cols[0] == 'sub' else cols
+            if not dig_values(rbase):
+                if any(t[0] == 'call' and t[1] in TIMEC0 for t in subterms(rbase)):
+                    ctx.violation(rid, fi, c, 'the frequency-bin coordinate of the accumulation is the time index: %s' % show(rbase)[:90])
+                    continue
+                if S('inam') in set(subterms(rbase)) or S('infr') in set(subterms(rbase)):
+                    ctx.violation(rid, fi, c, 'the frequency-bin coordinate of the accumulation is not the digitised frequency: %s'
+                                  % show(rbase)[:90])
+                    continue
+            if dig_values(cbase):
+                ctx.violation(rid, fi, c, 'the time coordinate of the accumulation is the frequency-bin index: %s' % show(cbase)[:90])
+                continue
+            if param_values(cbase):
+                ctx.violation(rid, fi, c, 'the time coordinate of the accumulation is computed from the values of the inputs: %s'
+                              % show(cbase)[:90])
+                continue
+            if rows[0] == 'sub' and rows[2][0] not in ('c', 'slice', 'tuple'):
+                wrongpart = [pt for pt in mask_parts(rows[2]) if pt[0] == 'cmp' and not dig_values(pt) and param_values(pt)]
+                if wrongpart:
+                    ctx.violation(rid, fi, c, 'the filter that removes out-of-range samples tests %s, not the frequency bin index'
+                                  % show(wrongpart[0])[:100])
+                    continue
+            dbase = data[1] if data[0] == 'sub' else data
+            if S('inam') not in set(subterms(dbase)) or dig_values(dbase):
+                ctx.violation('C10.R3', fi, 'mode=%s: accumulated value' % mode,
+                              'the values accumulated are %s, not the amplitudes' % show(dbase)[:90])
+                continue
             if dg is None:
                 ctx.undecided(rid, fi, c, 'row index does not come from np.digitize')
                 continue
             xterm, edges = dg[2][0], dg[2][1]
+            if S('freq_edges') in set(subterms(xterm)) and S('infr') in set(subterms(edges)):
+                ctx.violation(rid, fi, c, 'np.digitize is called with (edges, frequencies): the bin edges are looked up in '
+                              'the frequency array instead of the other way round', found=show(dg)[:120])
+                continue
+            # the keep-filter must test the bin index: a filter built from the time coordinate (or anything that is not
+            # the digitised frequency) keeps out-of-range frequencies and drops valid ones
+            def mask_parts(m):
+                if m[0] == 'call' and m[1] in ('numpy.all', 'numpy.logical_and') and m[2]:
+                    out_ = []
+                    for a_ in m[2]:
+                        out_ += mask_parts(a_)
+                    return out_
+                if m[0] == 'sub' and m[1] == ('ref', 'numpy.c_'):
+                    out_ = []
+                    for a_ in (m[2][1] if m[2][0] == 'tuple' else (m[2],)):
+                        out_ += mask_parts(a_)
+                    return out_
+                if m[0] == 'bin' and m[1] == '&':
+                    return mask_parts(m[2]) + mask_parts(m[3])
+                return [m]
+            def uses_values_of_digitize(t):
+                """does t depend on the *values* of a digitize result (not merely on its shape)?"""
+                if not isinstance(t, tuple) or not t:
+                    return False
+                if t[0] == 'attr' and t[2] in ('shape', 'size', 'ndim'):
+                    return False
+                if t[0] == 'call' and t[1] == 'builtins.len':
+                    return False
+                if t[0] == 'call' and t[1] == 'numpy.digitize':
+                    return True
+                return any(uses_values_of_digitize(x) for x in t[1:] if isinstance(x, tuple)) or \
+                    any(uses_values_of_digitize(y) for x in t[1:] if isinstance(x, tuple) and x and not isinstance(x[0], str)
+                        for y in x if isinstance(y, tuple))
+            TIMEC = ('numpy.tile', 'numpy.arange', 'numpy.repeat', 'numpy.indices', 'numpy.meshgrid')
+            badpart = None
+            if rows[0] == 'sub' and rows[2][0] not in ('c', 'slice', 'tuple'):
+                for part in mask_parts(rows[2]):
+                    if part[0] == 'cmp' and not uses_values_of_digitize(part) and any(t[0] == 'call' and t[1] in TIMEC for t in subterms(part)):
+                        badpart = part
+            if badpart is not None:
+                ctx.violation(rid, fi, c, 'the filter that removes out-of-range samples tests the time coordinate instead of the '
+                              'frequency bin index: %s' % show(badpart)[:110])
+                continue
             table = {}
             problem = None
             try:
@@ -142,6 +277,10 @@ def rule_classmap_2d(ctx, rid):
                         el = ElemEval(E, bind, edges_terms=(edges,))
                         r = el.ev(rows)
                         d = el.ev(data)
+                        if not (isinstance(r, tuple) and r and r[0] in ('kept', 'dropped')):
+                            r = ('kept', r)          # no filter at all: every sample is handed to the accumulation
+                        if not (isinstance(d, tuple) and d and d[0] in ('kept', 'dropped')):
+                            d = ('kept', d)
                         nrows = el.ev(shape[1][0]) if shape is not None and shape[0] == 'tuple' else None
                         got = r[1] if r[0] == 'kept' else None
                         want = _spec_row(p, E)
@@ -165,6 +304,9 @@ def rule_classmap_2d(ctx, rid):
                                               'mode=%s accumulates %r per sample, expected %r' % (mode, d[1], wantd))
                     if problem:
                         break
+            except Fault as f_:
+                ctx.violation(rid, fi, c, str(f_))
+                continue
             except Undecided as u:
                 ctx.undecided(rid, fi, c, 'index expression outside the class domain: %s' % u)
                 continue
@@ -245,17 +387,24 @@ def _check_time_index(rows, cols, shape):
     X = cols[1]
     while X[0] == 'meth' and X[1] in ('reshape', 'ravel', 'flatten'):
         X = X[2]
-    n = _time_index_form(X)
-    if n is None:
-        # not one of the known spellings: evaluate the construction on two tiny shapes - it must list, for every
-        # element of the row-major [samples x imfs] array, its sample index
-        from ..smallarr import flat_index_of_axis0, Undecided as _U
-        try:
-            if flat_index_of_axis0(cols[1], 2):
-                cand = [t for t in subterms(cols[1]) if _is_shape0(t)]
-                n = cand[0] if cand else None
-        except _U:
-            n = None
+    # the construction is evaluated on two tiny [samples x imfs] shapes: flattened, it must list for every element of
+    # the row-major array its sample index (a 200-line row-major array model, no numpy, no repository code)
+    from ..smallarr import flat_index_of_axis0, Undecided as _U, Fault as _F
+    n = None
+    try:
+        okflat = flat_index_of_axis0(cols[1], 2)
+        if okflat:
+            cand = [t for t in subterms(cols[1]) if _is_shape0(t)]
+            n = cand[0] if cand else None
+            if n is None:
+                return None
+        else:
+            return 'the time coordinate %s does not list, element by element, the sample index of the flattened ' \
+                   '[samples x imfs] array' % show(X)[:70]
+    except _F as f_:
+        return 'the time coordinate cannot be built: %s' % f_
+    except _U:
+        n = _time_index_form(X)
     if n is not None:
         if shape is not None and shape[0] == 'tuple' and len(shape[1]) == 2:
             w = shape[1][1]
@@ -324,6 +473,9 @@ def rule_classmap_1d(ctx, rid):
                                               'bin %d' % want if want is not None else 'dropped'))
                         if problem:
                             break
+                except Fault as f_:
+                    ctx.violation(rid, fi, c, str(f_))
+                    continue
                 except Undecided as u:
                     ctx.undecided(rid, fi, c, 'index expression outside the class domain: %s' % u)
                     continue
@@ -333,11 +485,71 @@ def rule_classmap_1d(ctx, rid):
                     ctx.passed(rid, fi, c, '%d class instances (np.add.at form)' % len(table))
                     result = table if result is None else result
                 continue
+            if outer and e.value[0] == 's' and '@F' in e.value[1]:
+                ctx.violation(rid, fi, c, 'mode=%s: the loops over bins and IMFs store nothing for this mode: the spectrum stays '
+                              'at its initial value' % mode)
+                continue
+            if outer and any(t[0] == 'call' and t[1] in ('numpy.zeros', 'numpy.empty') for t in subterms(e.value)) \
+                    and not any(t[0] == 'setitem' for t in subterms(e.value)):
+                ctx.violation(rid, fi, c, 'mode=%s: the array returned is the untouched allocation' % mode)
+                continue
             ctx.undecided(rid, fi, c, 'no per-bin store found')
             continue
         ls, ls2, eff = stores[0]
         idx, val = eff[2], eff[3]
         rowt = idx[1][0] if idx[0] == 'tuple' else idx
+        # every IMF column is visited, and written into its own column of a [bins x IMFs] array
+        c_cols = 'mode=%s: one column per IMF, one row per bin' % mode
+        INFR, INAM = S('infr'), S('inam')
+        ncols = [('sub', ('attr', x, 'shape'), C(1)) for x in (INFR, INAM)]
+        okc = True
+        why_c = ''
+        def shape_root(t_):
+            """x.shape[k] of an array that only had elements replaced / was copied is the shape entry of x"""
+            if t_[0] == 'sub' and t_[1][0] == 'attr' and t_[1][2] == 'shape':
+                x_ = t_[1][1]
+                while True:
+                    if x_[0] == 'setitem':
+                        x_ = x_[1]
+                    elif x_[0] == 'meth' and x_[1] in ('copy', 'astype'):
+                        x_ = x_[2]
+                    elif x_[0] == 'call' and x_[1] in ('numpy.array', 'numpy.asarray', 'numpy.copy', 'emd.support.ensure_2d') and x_[2]:
+                        x_ = x_[2][0]
+                    else:
+                        break
+                return ('sub', ('attr', x_, 'shape'), t_[2])
+            return t_
+        for inner_ls in (ls, ls2):
+            if inner_ls.var in set(subterms(idx)) and idx[0] == 'tuple' and len(idx[1]) == 2 and idx[1][1] == inner_ls.var:
+                it_ = inner_ls.iter_term
+                if not (it_[0] == 'call' and it_[1] == 'builtins.range' and len(it_[2]) == 1 and shape_root(it_[2][0]) in ncols):
+                    okc, why_c = False, 'the loop over IMF columns runs over %s, not range(infr.shape[1])' % show(it_)[:50]
+        alloc = None
+        for holder in (ls, ls2):
+            a_ = holder.entry_env.get(eff[5])
+            if a_ is not None and alloc is None and any(t[0] == 'call' and t[1] in ('numpy.zeros', 'numpy.ones', 'numpy.empty', 'numpy.full')
+                                                      for t in subterms(a_)):
+                alloc = a_
+        if alloc is not None:
+            shp = None
+            for t in subterms(alloc):
+                if t[0] == 'call' and t[1] in ('numpy.zeros', 'numpy.ones', 'numpy.empty', 'numpy.full') and t[2]:
+                    shp = t[2][0]
+            if shp is not None and shp[0] in ('tuple', 'list') and len(shp[1]) == 2:
+                want_rows = ('bin', '-', ('call', 'builtins.len', (S('freq_edges'),), ()), C(1))
+                alg_ = mk_algebra()
+                try:
+                    rows_ok = alg_.poly(shp[1][0]) == alg_.poly(want_rows)
+                except Exception:
+                    rows_ok = shp[1][0] == want_rows
+                if not rows_ok:
+                    okc, why_c = False, 'the spectrum is allocated with %s rows, there are len(freq_edges) - 1 bins' % show(shp[1][0])[:40]
+                elif shape_root(shp[1][1]) not in ncols:
+                    okc, why_c = False, 'the spectrum is allocated with %s columns, there are infr.shape[1] IMFs' % show(shp[1][1])[:40]
+        if okc:
+            ctx.passed(rid, fi, c_cols)
+        else:
+            ctx.violation(rid, fi, c_cols, why_c)
         dg = _find_digitize(val)
         if dg is None:
             edge_elems = {t[2] for t in subterms(val) if t[0] == 'sub' and t[1] == S('freq_edges') and is_c(t[2])}
@@ -353,6 +565,10 @@ def rule_classmap_1d(ctx, rid):
                 ctx.undecided(rid, fi, c, 'per-bin value does not select by np.digitize classes')
             continue
         edges = dg[2][1]
+        if S('freq_edges') in set(subterms(dg[2][0])) and S('infr') in set(subterms(edges)):
+            ctx.violation(rid, fi, c, 'np.digitize is called with (edges, frequencies): the bin edges are looked up in the '
+                          'frequency array instead of the other way round', found=show(dg)[:120])
+            continue
         # the selection mask inside the value: inam[(finds[:, jj] == ii), jj]
         sel = None
         for t in subterms(val):
@@ -390,6 +606,9 @@ def rule_classmap_1d(ctx, rid):
                         break
                 if problem:
                     break
+        except Fault as f_:
+            ctx.violation(rid, fi, c, str(f_))
+            continue
         except Undecided as u:
             ctx.undecided(rid, fi, c, 'index expression outside the class domain: %s' % u)
             continue
@@ -401,8 +620,19 @@ def rule_classmap_1d(ctx, rid):
         # exponent
         inner = val
         amp_pow = None
+        wrong_red = None
+        if inner[0] == 'call' and inner[1] in ('numpy.nanmean', 'numpy.mean', 'numpy.nanmax', 'numpy.max', 'numpy.nanmin',
+                                               'numpy.min', 'numpy.nanmedian', 'numpy.median', 'numpy.nanprod', 'numpy.prod'):
+            wrong_red = inner[1].replace('numpy.', 'np.')
         if inner[0] == 'call' and inner[1] in ('numpy.nansum', 'numpy.sum') and inner[2]:
             a = inner[2][0]
+            if a[0] == 'call' and a[1] == 'numpy.power' and len(a[2]) == 2 and is_c(a[2][0]) and not is_c(a[2][1]):
+                wrong_red = 'np.power(%s, amplitude): base and exponent are swapped' % show(a[2][0])
+            if a[0] == 'call' and a[1] == 'numpy.power' and len(a[2]) == 2 and is_c(a[2][1]) and isinstance(a[2][1][1], (int, float)) \
+                    and not is_c(a[2][0]):
+                amp_pow = a[2][1][1]
+            elif a[0] == 'bin' and a[1] == '**' and is_c(a[3]) and isinstance(a[3][1], (int, float)):
+                amp_pow = a[3][1]
             if a[0] == 'call' and a[1] == 'numpy.power' and a[2][1] == C(2):
                 amp_pow = 2
             elif a[0] == 'bin' and a[1] == '**' and a[3] == C(2):
@@ -411,7 +641,10 @@ def rule_classmap_1d(ctx, rid):
                 amp_pow = 1
         want = 2 if mode == 'energy' else 1
         c3 = '1-D mode=%s: exponent of the summed amplitude' % mode
-        if amp_pow == want:
+        if wrong_red:
+            ctx.violation('C10.R3', fi, c3, 'the bin holds %s, not the sum of the %s of its samples'
+                          % (wrong_red, 'squared amplitudes' if mode == 'energy' else 'amplitudes'))
+        elif amp_pow == want:
             ctx.passed('C10.R3', fi, c3, 'power %d' % want)
         elif amp_pow is None:
             ctx.undecided('C10.R3', fi, c3, 'cannot read the summed expression %s' % show(val)[:60])
@@ -454,13 +687,25 @@ def rule_bins(ctx, rid):
     alg = mk_algebra()
     mn, mx, nb = S('data_min'), S('data_max'), S('nbins')
     for scale in ('linear', 'log'):
-        exits = [e for e in Evaluator(P).run(fi, context={'scale': scale}) if e.kind == 'return']
+        allx = Evaluator(P).run(fi, context={'scale': scale})
+        exits = [e for e in allx if e.kind == 'return']
         c = 'scale=%s: nbins+1 edges spanning [data_min, data_max]' % scale
+        if not exits and allx:
+            ctx.violation(rid, fi, c, "the documented scale '%s' is rejected: every path raises %s" % (scale, show(allx[0].value)[:50]))
+            continue
+        unb = [t for e_ in exits for t in subterms(e_.value) if t[0] == 's' and str(t[1]).startswith('global:')]
+        if unb:
+            ctx.violation(rid, fi, c, "scale='%s': %s is read but never assigned on this path (NameError for every input)"
+                          % (scale, unb[0][1].split(':', 1)[1]))
+            continue
         if len(exits) != 1 or exits[0].value[0] != 'tuple':
             ctx.undecided(rid, fi, c, 'unexpected return shape')
             continue
         edges, centres = exits[0].value[1]
         ls = edges
+        if scale == 'linear' and edges[0] == 'call' and edges[1] in ('numpy.exp', 'numpy.logspace', 'numpy.geomspace'):
+            ctx.violation(rid, fi, c, "scale='linear' returns logarithmically spaced edges", found=show(edges)[:80])
+            continue
         if scale == 'log':
             if not (edges[0] == 'call' and edges[1] == 'numpy.exp'):
                 ctx.violation(rid, fi, c, 'log-spaced edges are not exp(linspace(log(min), log(max)))',
